@@ -3,7 +3,17 @@ package compose
 import (
 	"context"
 	"sort"
+	"sync"
 )
+
+// harness-side shared state (logs, monitors) is written from node bodies that may run on parallel goroutines
+var vMu sync.Mutex
+
+func (l *vLog) add(node string, in int) {
+	vMu.Lock()
+	l.execs = append(l.execs, vExec{node, in})
+	vMu.Unlock()
+}
 
 // ---- shared harness helpers (package compose)
 
@@ -55,7 +65,7 @@ func vNodeFn(key string, log *vLog) func(ctx context.Context, in map[string]any)
 	return func(ctx context.Context, in map[string]any) (map[string]any, error) {
 		x := vFold(in)
 		if log != nil {
-			log.execs = append(log.execs, vExec{key, x})
+			log.add(key, x)
 		}
 		return map[string]any{key: vsymUF("f_"+key, x)}, nil
 	}
